@@ -205,6 +205,8 @@ def run(ctx):
                     break
         ctx.notes["byte_order_pairs_compared/" + mv] = npairs
     found = _crosstype(ctx) or found
+    from .. import labelcamp          # codec LABELS (Sf.Label.spec) of every container, foreign G.711 files through the four read types, the width rule Sf.Label.keepOk of every exact integer codec
+    found = labelcamp.run(ctx) or found
     ctx.sample({"campaign": camps[0].name(), "n_inputs": len(camps[0].inputs), "first_inputs": ["%x" % (v & 0xFFFF) for v in camps[0].inputs[:4]]})
     ctx.sample({"campaign": camps[-1].name(), "n_inputs": len(camps[-1].inputs)})
     if failed and not found:
